@@ -256,6 +256,7 @@ def run(prog, chk):
            "loops until the awaited number arrives")
     _request_numbers_unique(prog, chk)
     _peer_counted_loops_bounded(prog, chk)
+    _frame_reader_total(prog, chk)
 
 
 def _request_numbers_unique(prog, chk):
@@ -329,3 +330,18 @@ def _peer_counted_loops_bounded(prog, chk):
                        peer, "bounded by the remaining message length" if ok else
                        "nothing bounds it by what the message can hold: a count of 0xFFFFFFFF keeps the server busy for hours and the request is never answered"))
     chk.floor("R4", "peer-counted loops that read the message", n, 1)
+
+
+def _frame_reader_total(prog, chk):
+    """R4c: BaseSFTP._read_packet runs outside the per-request catch-all of start_subsystem: an internal error while
+    taking a frame apart ends the server loop, and every later request goes unanswered.  A frame length is chosen by
+    the peer, so indexing the frame needs an established length (a zero-length frame is legal input)."""
+    from ..core.escape import unguarded_constant_subscripts, unguarded_variable_subscripts
+    f = prog.func("BaseSFTP._read_packet")
+    bad = [(unparse(x), why) for (x, need, have, why) in unguarded_constant_subscripts(prog, f)] + \
+        [(unparse(x), why) for (x, why) in unguarded_variable_subscripts(prog, f)]
+    subs = [x for x in walk_no_defs(f.node) if isinstance(x, ast.Subscript) and isinstance(x.ctx, ast.Load) and not isinstance(x.slice, ast.Slice)]
+    chk.floor("R4", "index subscripts in BaseSFTP._read_packet", len(subs), 2)
+    chk.ob("R4.frame-reader-indexes-only-established-lengths", "BaseSFTP._read_packet", not bad, f.loc,
+           "%d index subscript(s); %s" % (len(subs), "each under an established length" if not bad else
+                                          "; ".join("%s: %s" % b for b in bad) + " - IndexError ends start_subsystem's loop"))
